@@ -114,6 +114,26 @@ def _site(out):
     return f'line {getattr(n, "lineno", "?")}: {unparse(n, 100)}'
 
 
+def numpy_scalar_params(kw, kind):
+    """the same parameters handed over as numpy scalars (as they come out of an array, an xarray attribute, a DataFrame cell):
+    kind 'int64' turns whole numbers into np.int64, 'float32' every number into np.float32, 'float64' into np.float64"""
+    from .vec import Sc
+
+    def conv(v):
+        if isinstance(v, bool) or v is None or isinstance(v, str):
+            return v
+        if isinstance(v, (int, Fr)):
+            if kind == 'int64':
+                return Sc(X.num(v), 'i8') if Fr(v).denominator == 1 else Sc(X.num(v), 'f8')
+            return Sc(X.num(v), 'f8', narrow=(kind == 'float32'))
+        if isinstance(v, tuple):
+            return tuple(conv(x) for x in v)
+        if isinstance(v, list):
+            return [conv(x) for x in v]
+        return v
+    return {k: (conv(v) if k not in ('method', 'check_type', 'config') else v) for k, v in kw.items()}
+
+
 def result_vec(ck, rule, case, out):
     v = out.value
     if not isinstance(v, Vec):
